@@ -62,8 +62,10 @@ VARIABLES l,
           pend,   \* answers of the set-up handler not transmitted yet
           dls,    \* payloads delivered to the application and not taken yet (the device keeps at most 4)
           prev,   \* the unicast session as snapshotted after the previous event
-          gak     \* the GenAppKey installed in the device (reset event)
-vars == <<l, grps, pend, dls, prev, gak>>
+          gak,    \* the GenAppKey installed in the device (reset event)
+          board,  \* [region, maxpw, gain] of the history (reset event)
+          txp     \* the TX power the network commanded as snapshotted after the previous event (dBm; -1: none)
+vars == <<l, grps, pend, dls, prev, gak, board, txp>>
 
 \* signatures of the open findings (known_findings.json): a deviation is followed only when its signature is listed
 Allowed == IF "KNOWN" \in DOMAIN IOEnv THEN JsonDeserialize(IOEnv.KNOWN) ELSE <<>>
@@ -188,12 +190,19 @@ HeardFrame(st, b) ==
              ELSE st
          ELSE st
 
-Transmitted(st, b) ==
+\* C09 for the handler's own uplinks: the limits of any other transmission (Mac!MaxTxPower, written out for the three
+\* quantities this module tracks)
+McMaxPower == LET base == MinOf(board.maxpw, MaxEirp(board.region) - board.gain)
+              IN IF txp < 0 THEN base ELSE MinOf(base, txp)
+Transmitted(st, c) ==
+    LET b == c.bytes IN
     IF ~StructOk(b) \/ Fields(b).port # SetupPort THEN st
     ELSE LET f == Fields(b)
              obs == DecryptFrm(b, prev.nwk, prev.app, <<0, f.fcnt16>>) IN
-         IF Soft(IF st.pend # obs /\ st.pendk = obs /\ IsAllowed(SigDeleteAnsId) THEN Known(SigDeleteAnsId, obs)
-                 ELSE Chk("multicast set-up: the answers, in request order, are the payload of the FPort-200 uplink", st.pend, obs))
+         IF Soft(/\ (IF st.pend # obs /\ st.pendk = obs /\ IsAllowed(SigDeleteAnsId) THEN Known(SigDeleteAnsId, obs)
+                      ELSE Chk("multicast set-up: the answers, in request order, are the payload of the FPort-200 uplink", st.pend, obs))
+                 /\ ChkT(<<"C09 (multicast set-up) tx power of the handler's uplink", c.pw, "max", McMaxPower>>, c.pw <= McMaxPower)
+                 /\ ChkT(<<"C09 (multicast set-up) tx frequency in band", c.rf.freq>>, FreqValid(board.region, c.rf.freq)))
          THEN [st EXCEPT !.pend = <<>>, !.pendk = <<>>] ELSE st
 
 RECURSIVE Walk(_, _, _)
@@ -202,7 +211,7 @@ Walk(calls, i, st) ==
     ELSE LET c == calls[i] IN
          Walk(calls, i + 1,
               IF IsHeard(c) THEN HeardFrame(st, c.bytes)
-              ELSE IF c.c = "tx" /\ "bytes" \in DOMAIN c THEN Transmitted(st, c.bytes)
+              ELSE IF c.c = "tx" /\ "bytes" \in DOMAIN c THEN Transmitted(st, c)
               ELSE st)
 
 Judged(e) == e.ev \in {"a_proc", "a_rxc"} /\ e.resp.k \notin {"Panic", "Hang"}
@@ -247,15 +256,18 @@ EvTakeDl(e) ==
     /\ dls' = <<>> /\ UNCHANGED <<grps, pend>>
 
 Match(e) ==
-    CASE e.ev = "reset" -> grps' = NoGroups /\ pend' = <<>> /\ dls' = <<>> /\ gak' = (IF "genappkey" \in DOMAIN e THEN e.genappkey ELSE gak)
-      [] e.ev = "mc_group" -> EvGroup(e) /\ UNCHANGED gak
-      [] e.ev \in {"a_proc", "a_rxc"} /\ Judged(e) -> EvCalls(e) /\ UNCHANGED gak
-      [] e.ev = "take_dl" -> EvTakeDl(e) /\ UNCHANGED gak
-      [] OTHER -> UNCHANGED <<grps, pend, dls, gak>>
+    CASE e.ev = "reset" -> /\ grps' = NoGroups /\ pend' = <<>> /\ dls' = <<>> /\ gak' = (IF "genappkey" \in DOMAIN e THEN e.genappkey ELSE gak)
+                           /\ board' = [region |-> e.region, maxpw |-> e.maxpw, gain |-> e.gain]
+      [] e.ev = "mc_group" -> EvGroup(e) /\ UNCHANGED <<gak, board>>
+      [] e.ev \in {"a_proc", "a_rxc"} /\ Judged(e) -> EvCalls(e) /\ UNCHANGED <<gak, board>>
+      [] e.ev = "take_dl" -> EvTakeDl(e) /\ UNCHANGED <<gak, board>>
+      [] OTHER -> UNCHANGED <<grps, pend, dls, gak, board>>
 
-Init == l = 1 /\ grps = NoGroups /\ pend = <<>> /\ dls = <<>> /\ prev = [has |-> 0] /\ gak = McZero16
+Init == /\ l = 1 /\ grps = NoGroups /\ pend = <<>> /\ dls = <<>> /\ prev = [has |-> 0] /\ gak = McZero16
+        /\ board = [region |-> "EU868", maxpw |-> 14, gain |-> 0] /\ txp = -1
 Next == /\ l <= Len(Rec) /\ l' = l + 1 /\ Match(Rec[l])
         /\ prev' = (IF "sess" \in DOMAIN Rec[l] THEN Rec[l].sess ELSE prev)
+        /\ txp' = (IF "snap" \in DOMAIN Rec[l] THEN Rec[l].snap.txp ELSE txp)
 Spec == Init /\ [][Next]_vars
 
 TraceAccepted ==
